@@ -283,7 +283,7 @@ func ruleAddVar(c *Ctx, r *Repo) {
 				}
 			}
 		case *ast.CallExpr:
-			if fn := calleeFunc(info, x); fn != nil && fn.Name() == "addImport" && len(x.Args) == 3 {
+			if fn := calleeFunc(info, x); fn != nil && fn.Name() == "addImport" && (len(x.Args) == 3 || len(x.Args) == 2) && fn.Type().(*types.Signature).Recv() != nil && strings.HasSuffix(fn.Type().(*types.Signature).Recv().Type().String(), "MethodScope") {
 				if se, ok := x.Args[1].(*ast.SelectorExpr); ok && se.Sel.Name == "Types" {
 					if id, ok := se.X.(*ast.Ident); ok && info.Uses[id] == objectPkg {
 						okImp = true
@@ -302,7 +302,42 @@ func ruleAddVar(c *Ctx, r *Repo) {
 		}
 		return true
 	})
-	c.Check(okTyp && okImp && nPop == 0, "R13.3", "AddVar|replacement-var", r.Pos(ifs.Pos()), "typ = replacement type; imports = its package only", "with a replacement the variable does not carry exactly the replacement's type and only the replacement package's import")
+	// the same two facts read off AddVar's paths: what the returned Var holds and which import calls ran. The
+	// value is the same whether it is written as one literal per branch or built up field by field.
+	pathRepl, pathPlain := false, false
+	{
+		paths, pd := enumerateFunc(info, fd)
+		nRepl, nPlain := 0, 0
+		okRepl, okPlain := !pd.overflow, !pd.overflow
+		for _, q := range paths {
+			if q.Exit != "return" || len(q.Ret) != 2 || q.Ret[1] != "nil" {
+				continue
+			}
+			_, vals, isLit := splitStructLit(strings.TrimPrefix(q.Ret[0], "&"))
+			noRepl, tested := q.atom("ARG3 == nil")
+			if !isLit || !tested {
+				okRepl, okPlain = false, false
+				continue
+			}
+			adds := q.CallsTo("MethodScope).addImport")
+			pops := q.CallsTo("MethodScope).populateImports")
+			ownType := "ARG1.Type<(go/types.object).Type>()"
+			if noRepl {
+				nPlain++
+				if !(vals["typ"] == ownType && len(pops) == 1 && len(pops[0].Args) == 2 && pops[0].Args[1] == ownType && vals["imports"] == "RECV.populateImports<(template.MethodScope).populateImports>(ARG0, "+ownType+")" && len(adds) == 0) {
+					okPlain = false
+				}
+			} else {
+				nRepl++
+				if !(strings.HasSuffix(vals["typ"], ".Type<(go/types.Object).Type>()") && !strings.HasPrefix(vals["typ"], "ARG1.") && len(pops) == 0 && len(adds) == 1 && len(adds[0].Args) >= 2 && strings.HasSuffix(adds[0].Args[1], ".Types") &&
+					(strings.HasPrefix(vals["imports"], "map[string]*Package{") || strings.HasPrefix(vals["imports"], "builtin.make(map[string]*Package"))) {
+					okRepl = false
+				}
+			}
+		}
+		pathRepl, pathPlain = okRepl && nRepl > 0, okPlain && nPlain > 0
+	}
+	c.Check(okTyp && okImp && nPop == 0 || pathRepl, "R13.3", "AddVar|replacement-var", r.Pos(ifs.Pos()), "typ = replacement type; imports = its package only", "with a replacement the variable does not carry exactly the replacement's type and only the replacement package's import")
 	// else arm
 	okElse := false
 	if eb, ok := ifs.Else.(*ast.BlockStmt); ok {
@@ -324,7 +359,7 @@ func ruleAddVar(c *Ctx, r *Repo) {
 		})
 		okElse = popOK && typOK
 	}
-	c.Check(okElse, "R13.3", "AddVar|plain-var", r.Pos(ifs.Pos()), "without a replacement: own type, imports from populateImports", "without a replacement the variable is not rendered with its own type and the imports collected from it")
+	c.Check(okElse || pathPlain, "R13.3", "AddVar|plain-var", r.Pos(ifs.Pos()), "without a replacement: own type, imports from populateImports", "without a replacement the variable is not rendered with its own type and the imports collected from it")
 }
 
 var resAnnot = regexp.MustCompile(`<\([^<>]*\)[^<>]*>`)
